@@ -784,6 +784,10 @@ func osfsEngine(c *Ctx) {
 	corpus = append(corpus, []osNode{{"secret", 'f', ""}, {"l1", 'L', "nx/../../secret"}, {"l2", 'L', "nx/../../../secret"}, {"d", 'd', ""},
 		{"d/l1", 'L', "nx/../../../secret"}, {"l3", 'L', "/nx/../../secret"}, {"l4", 'L', "d/nx/../../../secret"}, {"sub", 'L', "nx/../.."},
 		{"l5", 'L', "nx/ny/../../../../secret"}})
+	// a link text that passes through another link landing shallower than its spelling (`up -> /`) and goes on with `..`:
+	// whatever bookkeeping the resolver keeps about its depth, the base is the floor
+	corpus = append(corpus, []osNode{{"secret", 'f', ""}, {"d", 'd', ""}, {"d/up", 'L', "/"}, {"d/lnk", 'L', "up/../../secret"}, {"d/l2", 'L', "up/../../../secret"},
+		{"d/sub", 'd', ""}, {"d/sub/up2", 'L', "../.."}, {"d/sub/l3", 'L', "up2/../../secret"}, {"l4", 'L', "d/up/../../secret"}, {"sub", 'L', "d/up/../.."}})
 	// link targets longer than NAME_MAX (up to PATH_MAX is legal): 267 bytes relative, 268 absolute, one in a chain
 	{
 		a, b, cc := strings.Repeat("a", 100), strings.Repeat("b", 100), strings.Repeat("c", 60)
